@@ -20,6 +20,8 @@ import (
 	"github.com/nspcc-dev/neo-go/pkg/core/transaction"
 	"github.com/nspcc-dev/neo-go/pkg/crypto/keys"
 	"github.com/nspcc-dev/neo-go/pkg/encoding/address"
+	"github.com/nspcc-dev/neo-go/pkg/encoding/fixedn"
+	"github.com/nspcc-dev/neo-go/pkg/neotest"
 	"github.com/nspcc-dev/neo-go/pkg/services/notary"
 	"github.com/nspcc-dev/neo-go/pkg/smartcontract"
 	"github.com/nspcc-dev/neo-go/pkg/util"
@@ -76,29 +78,162 @@ func isKnownTx(err error) bool {
 type c13E2EOpt struct {
 	N            int    `json:"n"`
 	Budget       int    `json:"block_budget"`
-	StartDelay   []int  `json:"start_delay_blocks"`       // per member
-	Stage        string `json:"prepared_state,omitempty"` // see c13Prepare; "": fresh chain
-	CancelMember int    `json:"cancelled_member"`         // -1: nobody
-	CancelAt     int    `json:"cancelled_at_block"`       // blocks after the start
+	StartDelay   []int  `json:"start_delay_blocks"`        // per member
+	Stage        string `json:"prepared_state,omitempty"`  // see c13Prepare; "": fresh chain
+	Sweep        bool   `json:"threshold_sweep,omitempty"` // after the run: re-runs with balances put on the thresholds of the funds stage
+	CancelMember int    `json:"cancelled_member"`          // -1: nobody
+	CancelAt     int    `json:"cancelled_at_block"`        // blocks after the start
 	RestartAfter int    `json:"restarted_after_blocks"`
 }
 
 type c13E2E struct {
-	Opt         c13E2EOpt      `json:"run"`
-	Blocks      int            `json:"blocks_used"`
-	Returned    map[int]string `json:"deploy_returned"` // member -> "" (nil) or error
-	Cancelled   string         `json:"cancelled_run_returned,omitempty"`
-	Prepared    map[string]any `json:"prepared_state_observed,omitempty"`
-	Notary      bool           `json:"notary_role_is_committee"`
-	Alphabet    bool           `json:"alphabet_role_is_committee"`
-	NNSID1      bool           `json:"nns_has_id_1"`
-	Contracts   int            `json:"deployed_contracts"`
-	Names       map[string]int `json:"neofs_zone_resolves_to_supplied_executable"`
-	Distinct    bool           `json:"names_resolve_to_distinct_contracts"`
-	Sent        int            `json:"transactions_and_notary_requests_sent"`
-	RerunNil    int            `json:"rerun_returned_nil"`
-	RerunSent   int            `json:"rerun_transactions_and_notary_requests_sent"`
-	RerunBlocks int            `json:"rerun_blocks"`
+	Opt            c13E2EOpt      `json:"run"`
+	Blocks         int            `json:"blocks_used"`
+	Returned       map[int]string `json:"deploy_returned"` // member -> "" (nil) or error
+	Cancelled      string         `json:"cancelled_run_returned,omitempty"`
+	Prepared       map[string]any `json:"prepared_state_observed,omitempty"`
+	Notary         bool           `json:"notary_role_is_committee"`
+	Alphabet       bool           `json:"alphabet_role_is_committee"`
+	NNSID1         bool           `json:"nns_has_id_1"`
+	Contracts      int            `json:"deployed_contracts"`
+	Names          map[string]int `json:"neofs_zone_resolves_to_supplied_executable"`
+	Distinct       bool           `json:"names_resolve_to_distinct_contracts"`
+	Sent           int            `json:"transactions_and_notary_requests_sent"`
+	RerunNil       int            `json:"rerun_returned_nil"`
+	RerunSent      int            `json:"rerun_transactions_and_notary_requests_sent"`
+	RerunBlocks    int            `json:"rerun_blocks"`
+	RerunValidator string         `json:"rerun_validator_account_gas_before"`
+	RerunLeader    string         `json:"rerun_leader_gas_before"`
+	Sweeps         []c13SweepRes  `json:"threshold_reruns,omitempty"`
+}
+
+// c13SweepRes is one re-run of Deploy by every member on the finished chain
+// after the harness put balances on (or next to) the thresholds of
+// makeInitialTransferToCommittee (deploy/funds.go): the validators' account
+// against its 10 GAS reserve, the leader against the 150 GAS refill mark.
+type c13SweepRes struct {
+	Name            string `json:"balances"`
+	ValidatorBefore string `json:"validator_account_gas_before"`
+	LeaderBefore    string `json:"member_gas_before"`
+	ExpectIdle      bool   `json:"must_send_nothing"`
+	ReturnedNil     int    `json:"returned_nil"`
+	Sent            int    `json:"transactions_and_notary_requests_sent"`
+	Blocks          int    `json:"blocks"`
+	ValidatorAfter  string `json:"validator_account_gas_after"`
+	LeaderAfter     string `json:"member_gas_after"`
+	Contracts       int    `json:"deployed_contracts_after"`
+	Bad             string `json:"violation,omitempty"`
+}
+
+const (
+	c13GAS        = int64(1_0000_0000)
+	c13Reserve    = 10 * c13GAS  // validatorLowerGASThreshold
+	c13RefillMark = 150 * c13GAS // initialAlphabetGASAmount / 2
+)
+
+// setGAS makes the GAS balance of acc exactly target: the bank tops it up, or
+// takes the excess with acc's witness (the bank pays the fee either way).
+func (x *c13Net) setGAS(bank neotest.Signer, acc util.Uint160, witness neotest.Signer, target int64) {
+	gasH := x.exec.NativeHash(x.t, "GasToken")
+	// the block that carries the adjustment may itself credit acc (committee reward of 0.5 GAS to
+	// committee[height mod n], network fees to the block's primary): adjust again, a few times at most
+	for try := 0; try < 4; try++ {
+		cur := x.bc.GetUtilityTokenBalance(acc).Int64()
+		switch {
+		case cur < target:
+			x.exec.NewInvoker(gasH, bank).Invoke(x.t, true, "transfer", bank.ScriptHash(), acc, target-cur, nil)
+		case cur > target:
+			x.exec.NewInvoker(gasH, bank, witness).Invoke(x.t, true, "transfer", acc, bank.ScriptHash(), cur-target, nil)
+		default:
+			return
+		}
+	}
+}
+
+// refill brings every member that is below the refill mark to 200 GAS (used
+// where the validators' account is the committee's and holds the remaining
+// supply: there a poor member is legitimately topped up by a re-run).
+func (x *c13Net) refill(bank neotest.Signer) {
+	for _, a := range x.accs {
+		if x.bc.GetUtilityTokenBalance(a.ScriptHash()).Int64() < c13RefillMark {
+			x.setGAS(bank, a.ScriptHash(), neotest.NewSingleSigner(a), 200*c13GAS)
+		}
+	}
+}
+
+// sweep re-runs Deploy on the finished chain with balances on the thresholds.
+func (x *c13Net) sweep(fs []contracts.Contract, bank neotest.Signer, res *c13E2E) {
+	n := x.n
+	vAcc := x.exec.Validator.ScriptHash()
+	differs := !vAcc.Equals(x.exec.Committee.ScriptHash()) // otherwise the validators' account IS the committee's and holds the remaining supply
+	// the member put on the refill mark: a non-leader where there is one (the leader is the primary of the
+	// harness' blocks and collects their network fees, its balance cannot be set to the unit); the others are refilled
+	pi := 0
+	if n > 1 {
+		pi = 1
+	}
+	leader := x.accs[pi].ScriptHash()
+	leaderW := neotest.NewSingleSigner(x.accs[pi])
+	gas := func(h util.Uint160) string { return fixedn.Fixed8(x.bc.GetUtilityTokenBalance(h).Int64()).String() }
+	type cfg struct {
+		name       string
+		vDelta     int64 // validators' account = reserve + vDelta (only when it differs from the committee's)
+		leader     int64 // leader's balance; 0: leave
+		expectIdle bool
+	}
+	cfgs := []cfg{
+		{"validators' account at its reserve, a member one below the refill mark", 0, c13RefillMark - 1, differs},
+		{"validators' account at its reserve, a member exactly at the refill mark", 0, c13RefillMark, true},
+		{"validators' account one below its reserve, a member one below the refill mark", -1, c13RefillMark - 1, differs},
+		{"validators' account one above its reserve, a member exactly at the refill mark", 1, c13RefillMark, !differs},
+		{"idle re-run afterwards", 0, 0, true},
+		{"validators' account one above its reserve, a member one below the refill mark", 1, c13RefillMark - 1, false},
+		{"idle re-run afterwards", 0, 0, true},
+	}
+	for _, cf := range cfgs {
+		if cf.name != "idle re-run afterwards" {
+			for i, a := range x.accs {
+				if i != pi && x.bc.GetUtilityTokenBalance(a.ScriptHash()).Int64() < c13RefillMark {
+					x.setGAS(bank, a.ScriptHash(), neotest.NewSingleSigner(a), 200*c13GAS)
+				}
+			}
+			if differs {
+				x.setGAS(bank, vAcc, x.exec.Validator, c13Reserve+cf.vDelta)
+			}
+			if cf.leader != 0 {
+				x.setGAS(bank, leader, leaderW, cf.leader)
+			}
+		}
+		x.mu.Lock()
+		x.sent, x.notaryReqs = nil, 0
+		x.mu.Unlock()
+		sr := c13SweepRes{Name: cf.name, ValidatorBefore: gas(vAcc), LeaderBefore: gas(leader), ExpectIdle: cf.expectIdle}
+		ret, _, used := x.runDeploy(fs, c13E2EOpt{N: n, Budget: 80, CancelMember: -1})
+		sr.Blocks = used
+		for _, e := range ret {
+			if e == "" {
+				sr.ReturnedNil++
+			}
+		}
+		x.mu.Lock()
+		sr.Sent = len(x.sent) + x.notaryReqs
+		x.mu.Unlock()
+		sr.ValidatorAfter, sr.LeaderAfter, sr.Contracts = gas(vAcc), gas(leader), x.deployedContracts()
+		switch {
+		case sr.ReturnedNil != n:
+			sr.Bad = fmt.Sprintf("only %d of %d members' Deploy returned nil within %d blocks", sr.ReturnedNil, n, used)
+		case cf.expectIdle && sr.Sent != 0:
+			sr.Bad = fmt.Sprintf("the re-run sent %d transactions / notary requests although nothing is left to do", sr.Sent)
+		case sr.Contracts != 8+n || !x.roleIsCommittee(noderoles.P2PNotary) || !x.roleIsCommittee(noderoles.NeoFSAlphabet):
+			sr.Bad = "the re-run changed the set of contracts or the role designations"
+		case differs && x.bc.GetUtilityTokenBalance(vAcc).Int64() > c13Reserve:
+			sr.Bad = "more than the reserve is left on the validators' account"
+		}
+		res.Sweeps = append(res.Sweeps, sr)
+		if sr.Bad != "" {
+			return // the chain is not in a finished state any more
+		}
+	}
 }
 
 var c13Names = []string{"proxy", "audit", "netmap", "balance", "reputation", "neofsid", "container"}
@@ -388,7 +523,13 @@ func c13RunE2E(t testing.TB, opt c13E2EOpt, salt int64) *c13E2E {
 	n := opt.N
 	x := newC13Net(t, n, salt)
 	x.withNotary()
-	x.fund(2000_0000_0000)
+	// every member starts with 20 GAS only: after the run the leader (who paid for NNS, the system contracts,
+	// its Alphabet contract and the domains) is below the 150 GAS refill mark of the funds stage
+	x.fund(20 * c13GAS)
+	bankAcc := wallet.NewAccountFromPrivateKey(c13Key(salt, 2000))
+	bank := neotest.NewSingleSigner(bankAcc)
+	x.exec.ValidatorInvoker(x.exec.NativeHash(t, "GasToken")).Invoke(t, true, "transfer",
+		x.exec.Validator.ScriptHash(), bankAcc.ScriptHash(), 100_000*c13GAS, nil)
 	fs, err := contracts.GetFS()
 	require.NoError(t, err)
 	res := &c13E2E{Opt: opt, Names: map[string]int{}}
@@ -448,6 +589,16 @@ func c13RunE2E(t testing.TB, opt c13E2EOpt, salt int64) *c13E2E {
 		allNil = allNil && e == ""
 	}
 	if allNil {
+		if x.exec.Validator.ScriptHash().Equals(x.exec.Committee.ScriptHash()) {
+			// committee sizes 1, 2, 4: the validators' account is the committee's; a member below the refill mark is
+			// legitimately topped up by any later run, so refill first: then nothing at all is left to do
+			x.refill(bank)
+			x.mu.Lock()
+			x.sent, x.notaryReqs = nil, 0
+			x.mu.Unlock()
+		}
+		res.RerunValidator = fixedn.Fixed8(x.bc.GetUtilityTokenBalance(x.exec.Validator.ScriptHash()).Int64()).String()
+		res.RerunLeader = fixedn.Fixed8(x.bc.GetUtilityTokenBalance(x.accs[0].ScriptHash()).Int64()).String()
 		ret, _, used := x.runDeploy(fs, c13E2EOpt{N: n, Budget: 60, CancelMember: -1})
 		res.RerunBlocks = used
 		for _, e := range ret {
@@ -463,6 +614,9 @@ func c13RunE2E(t testing.TB, opt c13E2EOpt, salt int64) *c13E2E {
 			}
 		}
 		x.mu.Unlock()
+		if opt.Sweep && res.RerunNil == n && res.RerunSent == 0 {
+			x.sweep(fs, bank, res)
+		}
 	}
 	x.close()
 	return res
@@ -501,12 +655,20 @@ func c13EndToEnd(c *c13) (string, string) {
 		}
 		return d
 	}
+	thorough := Tier() == "thorough"
 	scs := []sc{
-		{c13E2EOpt{N: 1, Budget: 300, CancelMember: -1}, "single member"},
-		{c13E2EOpt{N: 2, Budget: 300, CancelMember: -1}, "two members"},
-		{c13E2EOpt{N: 3, Budget: 400, CancelMember: -1, StartDelay: delays(3, 6)}, "arbitrary start order"},
+		{c13E2EOpt{N: 1, Budget: 300, CancelMember: -1, Sweep: thorough}, "single member"},
+		{c13E2EOpt{N: 2, Budget: 300, CancelMember: -1, Sweep: thorough}, "two members"},
+		{c13E2EOpt{N: 3, Budget: 400, CancelMember: -1, StartDelay: delays(3, 6), Sweep: true}, "arbitrary start order"},
+		{c13E2EOpt{N: 7, Budget: 800, CancelMember: -1, Sweep: true}, "seven members"},
 		{c13E2EOpt{N: 3, Budget: 500, CancelMember: 1 + r.Intn(2), CancelAt: 5 + r.Intn(40), RestartAfter: 1 + r.Intn(6)}, "a signer is stopped and restarted"},
 		{c13E2EOpt{N: 4, Budget: 700, CancelMember: 0, CancelAt: 5 + r.Intn(40), RestartAfter: 1 + r.Intn(6), StartDelay: delays(4, 4)}, "the leader is stopped and restarted"},
+	}
+	scs[len(scs)-1].opt.Sweep = thorough
+	if thorough {
+		for _, n := range []int{5, 6} {
+			scs = append(scs, sc{c13E2EOpt{N: n, Budget: 800, CancelMember: -1, Sweep: true}, fmt.Sprintf("%d members", n)})
+		}
 	}
 	// restart at every stage boundary: Deploy started on chains prepared in each intermediate state
 	order := c13StageOrder()
@@ -515,10 +677,14 @@ func c13EndToEnd(c *c13) (string, string) {
 		return []string{"nns-only", "notary-only", "alphabet-only", "contracts:1", fmt.Sprintf("contracts:%d", len(order)/2), fmt.Sprintf("contracts:%d", last)}
 	}
 	for _, st := range []string{"notary-only", "alphabet-only", fmt.Sprintf("contracts:%d", len(order)/2)} {
-		scs = append(scs, sc{c13E2EOpt{N: 1, Budget: 300, CancelMember: -1, Stage: st}, "started on a prepared chain: " + st})
+		if thorough || !strings.HasPrefix(st, "contracts:") {
+			scs = append(scs, sc{c13E2EOpt{N: 1, Budget: 300, CancelMember: -1, Stage: st}, "started on a prepared chain: " + st})
+		}
 	}
 	for _, st := range stages(3) {
-		scs = append(scs, sc{c13E2EOpt{N: 3, Budget: 400, CancelMember: -1, Stage: st}, "started on a prepared chain: " + st})
+		if thorough || st != "contracts:1" {
+			scs = append(scs, sc{c13E2EOpt{N: 3, Budget: 400, CancelMember: -1, Stage: st}, "started on a prepared chain: " + st})
+		}
 	}
 	if Tier() == "thorough" {
 		for _, n := range []int{2, 4, 7} {
@@ -557,6 +723,18 @@ func c13EndToEnd(c *c13) (string, string) {
 				ok := res.Notary && res.Alphabet && res.NNSID1 && res.Contracts == 8+s.opt.N && res.Distinct && res.RerunNil == s.opt.N && res.RerunSent == 0
 				for _, v := range res.Names {
 					ok = ok && v == 1
+				}
+				for _, sw := range res.Sweeps {
+					c.st.OutcomeHistogram["deploy-rerun-on-thresholds"]++
+					if sw.Bad != "" {
+						out = "re-run-on-thresholds-failed"
+						c.st.AddViolation(fmt.Sprintf("deploy.Deploy re-run on the finished chain (n=%d; %s: validators' account %s GAS, member %s GAS): %s",
+							s.opt.N, sw.Name, sw.ValidatorBefore, sw.LeaderBefore, sw.Bad), res)
+					}
+				}
+				if res.RerunNil != s.opt.N || res.RerunSent != 0 {
+					c.st.AddViolation(fmt.Sprintf("deploy.Deploy re-run on the finished chain (n=%d, %s; validators' account %s GAS, leader %s GAS): %d of %d members returned nil within %d blocks, %d transactions / notary requests sent (must be all, 0)",
+						s.opt.N, s.note, res.RerunValidator, res.RerunLeader, res.RerunNil, s.opt.N, res.RerunBlocks, res.RerunSent), res)
 				}
 				if !ok {
 					out = "wrong-final-state"
